@@ -14,7 +14,6 @@ import tempfile
 from hv import common as C
 from gen import cpukinds_gen as G
 
-STALE_KEY = "stale-slot-after-restrict"
 
 
 def _write(lines_list):
@@ -54,24 +53,16 @@ class Ctx:
 
     def verdict_one(self, case):
         """Run one case alone on both sides.  Returns (kind, key, what, impl_lines, model_lines)
-        kind in: ok, stale, crash, spec, diff, drift"""
+        kind in: ok, crash, spec, diff, drift"""
         name = case[0].split()[1]
         m = self.model([case]).get(name, [])
         rc, outs, err = self.impl([case])
         c = outs.get(name, [])
-        stale = any(l.startswith("FATAL STALE") for l in m)
         fatal = [l for l in m if l.startswith("FATAL")]
         bad = G.spec_check(case, c)
-        if stale:
-            # the model predicts a memory error of the C code (stale slot reused)
-            if rc != 0 or bad:
-                what = "register after a restrict that removed a kind reuses a stale array slot: " + \
-                       ("sanitizer/crash rc=%d %s" % (rc, _san_summary(err)) if rc != 0 else bad[0][1])
-                return "stale", STALE_KEY, what, c, m
-            return "stale-clean", "correspondence:stale-slot-not-observed", \
-                "model predicts the stale-slot memory error but the implementation ran cleanly and met the specification (code changed?)", c, m
         if fatal:
-            return "diff", "correspondence:model-fatal", "model reports %s" % fatal[0], c, m
+            # Properties_C15.history_safe / history_in_bounds: no history reaches these
+            return "diff", "correspondence:model-fatal", "model reports %s (excluded by theorem for every history)" % fatal[0], c, m
         if rc != 0:
             return "crash", "crash:" + _san_key(rc, err), "C harness rc=%d: %s" % (rc, _san_summary(err)), c, m
         if bad:
@@ -120,7 +111,7 @@ def _report(ctx, case, shrink=True):
         if small != case:
             case = small
             kind, key, what, c, m = ctx.verdict_one(case)
-    no_input = kind in ("diff", "stale-clean")
+    no_input = kind == "diff"
     if kind == "diff":
         key = "correspondence:" + case[0].split()[1]
     run.violation(key, what, _replay_text("correspondence" if no_input else "input", case, c, m), no_input=no_input)
@@ -155,9 +146,9 @@ def gen_cases(run):
         cases.append(("info-ranking", G.info_rank_case(rng, "ir%d" % i, nbpus=rng.choice([4, 8, 12]))))
     for i in range(400 if thorough else 80):
         cases.append(("malformed", G.malformed_case(rng, "bad%d" % i)))
-    # a dedicated stream that registers right after a restrict (where the model predicts the stale-slot error)
-    for i in range(40 if thorough else 12):
-        cases.append(("after-restrict", G.random_case(rng, "ar%d" % i, nbpus=8, maxops=10, p_clean_after_restrict=0.0)))
+    # a dedicated stream that registers right after a restrict (regression for fix c027890: stale vacated slot)
+    for i in range(1500 if thorough else 250):
+        cases.append(("after-restrict", G.random_case(rng, "ar%d" % i, nbpus=rng.choice([4, 8, 16]), maxops=10, p_clean_after_restrict=0.0)))
     return cases
 
 
@@ -182,13 +173,12 @@ def check(run, replay=None):
         names[c[0].split()[1]] = (kind, c)
     allc = [c for _, c in cases]
 
-    # 1. model on everything (also tells which cases hit the modelled stale-slot error)
+    # 1. model on everything
     mout = ctx.model(allc)
-    stale = [n for n, ls in mout.items() if any(l.startswith("FATAL STALE") for l in ls)]
-    otherfatal = [n for n, ls in mout.items() if any(l.startswith("FATAL") and "STALE" not in l for l in ls)]
-    for n in otherfatal:
+    fatal = [n for n, ls in mout.items() if any(l.startswith("FATAL") for l in ls)]
+    for n in fatal[:3]:
         _report(ctx, names[n][1])
-    batch = [names[n][1] for n in names if n not in stale and n not in otherfatal]
+    batch = [names[n][1] for n in names if n not in fatal]
 
     # 2. implementation on the batch (one process; on a crash, continue after the offending case)
     cout = {}
@@ -239,14 +229,7 @@ def check(run, replay=None):
             run.cov["traces_validated_against_impl"] += 1
             if ci != mi:
                 drift += 1
-    # 4. the cases on which the model predicts the stale-slot memory error: one process each
-    nst = 0
-    for n in stale[: (60 if run.tier == "thorough" else 10)]:
-        c = names[n][1]
-        k = _report(ctx, c, shrink=nst == 0)
-        run.count("\n".join(c), True, None, "model-predicts-stale-slot")
-        nst += 1
-    run.cov["model_predicted_stale_cases"] = len(stale)
+    run.cov["model_fatal_cases"] = len(fatal)
     run.cov["drift"] = drift
     run.cov["further_failing_cases"] = {"count": len(more), "first": more[:20]}
     run.cov["hypothesis_frequencies"] = hyp
